@@ -36,6 +36,11 @@ PROGRESS = re.compile(
     r"BinDecodable<'\w+>>::read$|BinDecodable::read$|RecordDataDecodable<'\w+>>::read_data$|RecordDataDecodable::read_data$|"
     r"Iterator>::next$|Iterator::next$|range::.*::next$|RData::read$|Record::read|SvcParamValue::read$|DNSSECRData::read$")
 
+FALLIBLE = re.compile(
+    r"BinDecoder::(pop|read_u8|read_u16|read_u32|read_i32|read_slice|read_vec|read_character_data)$|"
+    r"BinDecodable<'\w+>>::read$|BinDecodable::read$|RecordDataDecodable<'\w+>>::read_data$|RecordDataDecodable::read_data$|"
+    r"RData::read$|Record::read|SvcParamValue::read$|DNSSECRData::read$")
+
 P = 'hickory_proto::'
 D = P + 'serialize::binary::decoder::BinDecoder::'
 # (fn, kind, what) -> (count, reason, check-id or None)
@@ -104,14 +109,21 @@ def run(cx):
     exemption_checks(cx)
 
     # ---------------------------------------------------------------- L1 loop progress
-    nloops = 0
+    nloops = nfall = nunres = 0
     for p in sorted(cn):
         f = prog.fns[p]
         if not loops.has_loops(f):
             continue
         nloops += 1
         pb = {bi for bi, c, t in prog.calls_of(f) if any(PROGRESS.search(x) for x in f.callee_names(c))}
-        bad = loops.cycles_without(cx, f, pb)
+        # a fallible reader consumes input only when it SUCCEEDS: for those calls the progress point is the success edge of the
+        # branch on their result, not the call itself (`if let Ok(..) = decoder.read_slice(n) {..} else { stay in this state }`
+        # spins on a truncated input although every iteration "calls a reader")
+        pbf = {bi for bi, c, t in prog.calls_of(f) if any(FALLIBLE.search(x) for x in f.callee_names(c))}
+        pe, unresolved = loops.success_edges(cx, f, pbf)
+        nfall += len(pbf)
+        nunres += len(unresolved)
+        bad = loops.cycles_without(cx, f, (pb - pbf) | unresolved, pe)
         cx.check('C01.L1', not bad, p, 'loops', 'every-cycle-consumes-input-or-advances-an-iterator',
                  'blocks on a progress-free cycle at lines ' + ','.join(str(f.span(b)[0]) for b in sorted(bad)[:8]), f'{f.file}:{f.line}',
                  sample={'fn': shorten(p + '(')[:-1], 'progress_blocks': len(pb), 'holds': not bad})
@@ -121,6 +133,8 @@ def run(cx):
             if re.search(r'iter::(repeat|repeat_with|from_fn|successors)\(|Iterator::cycle\(', tt):
                 cx.check('C01.L1', False, p, 'iter', 'no-infinite-iterator-source', tt[:120], f.loc(bi))
     cx.floor('C01.L1', nloops, 12, 'loops in the decode cone')
+    cx.floor('C01.L1', nfall - nunres, 20, 'fallible reader calls inside loops whose success edge was identified')
+    cx.notes.append(f'loop progress: {nfall} fallible reader calls inside loops, success edge identified for {nfall - nunres}')
 
     # ---------------------------------------------------------------- R1 recursion-free
     # resolved (monomorphic) edges; a call through a type parameter inside a generic function F is
